@@ -122,6 +122,12 @@ fn values(ctx: &mut Ctx) -> Vec<f64> {
             v.push(i - e);
         }
     }
+    // large whole parts with a fractional part exactly on a table fraction (whole * den exceeds u32 from 2^32/den on)
+    for w in [65_535.0, 16_777_215.0, 268_435_455.0, 268_435_456.0, 268_435_457.0, 300_000_000.0, 1_431_655_765.0, 2_147_483_647.0, 2_147_483_648.0, 3_000_000_000.0, 4_294_967_293.0, 4_294_967_294.0] {
+        for (p, q) in [(1.0, 2.0), (1.0, 4.0), (3.0, 4.0), (1.0, 8.0), (1.0, 16.0), (15.0, 16.0), (1.0, 32.0), (63.0, 64.0)] {
+            v.push(w + p / q);
+        }
+    }
     for k in 0..=33 {
         v.push(2f64.powi(k));
         v.push(2f64.powi(-k));
@@ -145,7 +151,15 @@ pub fn check_one(ctx: &mut Ctx, v: f64, acc: f32, max_den: u8, max_whole: u32) {
             return;
         }
     };
-    match judge(v, acc, max_den, max_whole, r) {
+    // the oracle reads the result through the library's own value() and Display: guarded like any other call
+    let verdict = match crate::core::guarded(|| judge(v, acc, max_den, max_whole, r)) {
+        Ok(x) => x,
+        Err(p) => {
+            ctx.panic_violation(&case, "value_or_display_of_result", p);
+            return;
+        }
+    };
+    match verdict {
         Ok(kind) => {
             ctx.count(&format!("outcome:{kind}"));
             if kind != "declined" {
@@ -156,6 +170,44 @@ pub fn check_one(ctx: &mut Ctx, v: f64, acc: f32, max_den: u8, max_whole: u32) {
             }
         }
         Err((c, m)) => ctx.violation(&case, "new_approx", &c, m),
+    }
+}
+
+/// two approximations of the same number in a row (first loose, then with other limits): the second result is judged
+/// against the value the number had, with the SECOND call's accuracy, denominator and whole-part limits
+fn sequences(ctx: &mut Ctx, vals: &[f64]) {
+    let first: [(f32, u8, u32); 4] = [(0.2, 2, u32::MAX), (0.05, 4, u32::MAX), (0.5, 64, 10), (1.0, 3, u32::MAX)];
+    let second: [(f32, u8, u32); 5] = [(0.1, 16, u32::MAX), (0.02, 4, u32::MAX), (0.0, 64, u32::MAX), (0.05, 2, 0), (0.01, 8, 5)];
+    for (i, v) in vals.iter().enumerate() {
+        if i % 5 != 0 || !ctx.mine((i / 5) as u64) {
+            continue;
+        }
+        for (a1, d1, w1) in first {
+            let Ok(Some(n0)) = crate::core::guarded(|| Number::new_approx(*v, a1, d1, w1)) else { continue };
+            let Ok(v0) = crate::core::guarded(|| n0.value()) else { continue };
+            for (a2, d2, w2) in second {
+                let case = Case::new("try_approx_sequence", format!("{v:e}"), 0, "n/a").with(json!({"bits": v.to_bits(), "first": [a1 as f64, d1 as f64, w1 as f64], "second": [a2 as f64, d2 as f64, w2 as f64]}));
+                ctx.evals += 1;
+                let mut n1 = n0;
+                let ok = match crate::core::guarded(|| n1.try_approx(a2, d2, w2)) {
+                    Ok(b) => b,
+                    Err(p) => {
+                        ctx.panic_violation(&case, "try_approx", p);
+                        continue;
+                    }
+                };
+                let same_bits = |a: &Number, b: &Number| format!("{a:?}") == format!("{b:?}");
+                if !ok && !same_bits(&n1, &n0) {
+                    ctx.violation(&case, "try_approx", "declined_but_changed", format!("{n0:?} became {n1:?} although try_approx returned false"));
+                    continue;
+                }
+                match crate::core::guarded(|| judge(v0, a2, d2, w2, if ok { Some(n1) } else { None })) {
+                    Err(p) => ctx.panic_violation(&case, "value_or_display_of_result", p),
+                    Ok(Err((c, m))) => ctx.violation(&case, "try_approx", &c, format!("{n0:?} (value {v0:e}) then try_approx({a2}, {d2}, {w2}) -> {ok}: {m}")),
+                    Ok(Ok(_)) => ctx.count(if ok { "sequence_second_accepted" } else { "sequence_second_declined" }),
+                }
+            }
+        }
     }
 }
 
@@ -188,8 +240,13 @@ fn callers(ctx: &mut Ctx) {
     for i in 0..n {
         let u = units[(i % units.len() as u64) as usize];
         let v = if i % 3 == 0 { (r.below(4000) as f64) / 16.0 } else { r.log_uniform(1e-3, 1e4) };
+        let range_end = if i % 5 == 4 { Some(v * *r.pick(&[1.125, 1.5, 5.5, 6.0, 1.25, 2.0, 16.0])) } else { None };
         for op in 0..3 {
-            let mut q = Quantity::new(Value::Number(Number::Regular(v)), Some(u.to_string()));
+            let value0 = match range_end {
+                Some(e) => Value::Range { start: Number::Regular(v), end: Number::Regular(e) },
+                None => Value::Number(Number::Regular(v)),
+            };
+            let mut q = Quantity::new(value0, Some(u.to_string()));
             let case = Case::new("caller", format!("{v} {u}"), 0, "bundled").with(json!({"op": op, "bits": v.to_bits(), "unit": u}));
             ctx.evals += 1;
             let res = crate::core::guarded(|| match op {
@@ -207,24 +264,33 @@ fn callers(ctx: &mut Ctx) {
                 ctx.panic_violation(&case, "caller", p);
                 continue;
             }
-            if let Value::Number(Number::Fraction { whole, num, den, err }) = q.value() {
+            let numbers: Vec<(&str, Number)> = match q.value() {
+                Value::Number(n) => vec![("value", *n)],
+                Value::Range { start, end } => vec![("range start", *start), ("range end", *end)],
+                Value::Text(_) => vec![],
+            };
+            for (which, number) in numbers {
+                let Number::Fraction { whole, num, den, err } = number else { continue };
                 ctx.count("caller_fraction_results");
+                if which != "value" {
+                    ctx.count("caller_fraction_results_in_ranges");
+                }
+                // the limits are those of the unit the quantity is shown in AFTER the call
                 let sym = q.unit().unwrap_or("").to_string();
                 let unit = conv.find_unit(&sym);
                 let (md, mw, acc) = unit_cfg(unit.as_ref().map(|u| u.symbol()).unwrap_or(""));
-                let val = q.value().clone();
-                let value = match &val {
-                    Value::Number(n) => n.value(),
-                    _ => unreachable!(),
+                let Ok(value) = crate::core::guarded(|| number.value()) else {
+                    ctx.violation(&case, "caller", "value_panics", format!("{number:?}"));
+                    continue;
                 };
-                if *num > 0 && (*den > md as u32 || !DOC_DENOMS.contains(den) || num >= den) {
-                    ctx.violation(&case, "caller", "denominator_above_unit_limit", format!("{v} {u} -> {q} ({:?}) but {sym} allows max_den {md}", q.value()));
-                } else if *whole > mw {
-                    ctx.violation(&case, "caller", "whole_above_unit_limit", format!("{v} {u} -> {q} ({:?}) but {sym} allows max_whole {mw}", q.value()));
+                if num > 0 && (den > md as u32 || !DOC_DENOMS.contains(&den) || num >= den) {
+                    ctx.violation(&case, "caller", "denominator_above_unit_limit", format!("{v} {u} -> {q} ({which} {number:?}) but {sym} allows max_den {md}"));
+                } else if whole > mw {
+                    ctx.violation(&case, "caller", "whole_above_unit_limit", format!("{v} {u} -> {q} ({which} {number:?}) but {sym} allows max_whole {mw}"));
                 } else if err.abs() > acc as f64 * value * (1.0 + 1e-9) {
-                    ctx.violation(&case, "caller", "error_above_unit_accuracy", format!("{v} {u} -> {:?}, accuracy {acc}", q.value()));
+                    ctx.violation(&case, "caller", "error_above_unit_accuracy", format!("{v} {u} -> {which} {number:?}, accuracy {acc}"));
                 } else {
-                    ctx.nontrivial_hash(crate::core::hash64(format!("{v}{u}{op}").as_bytes()));
+                    ctx.nontrivial_hash(crate::core::hash64(format!("{v}{u}{op}{which}").as_bytes()));
                 }
             }
         }
@@ -253,6 +319,7 @@ pub fn run(ctx: &mut Ctx) {
             }
         }
     }
+    sequences(ctx, &vals);
     callers(ctx);
 }
 
@@ -260,6 +327,9 @@ pub fn replay(ctx: &mut Ctx, case: &Case) {
     if case.kind == "new_approx" {
         let v = f64::from_bits(case.params["bits"].as_u64().unwrap());
         check_one(ctx, v, case.params["accuracy"].as_f64().unwrap() as f32, case.params["max_den"].as_u64().unwrap() as u8, case.params["max_whole"].as_u64().unwrap() as u32);
+    } else if case.kind == "try_approx_sequence" {
+        let v = f64::from_bits(case.params["bits"].as_u64().unwrap());
+        sequences(ctx, &[v]);
     } else {
         ctx.nshards = 1;
         callers(ctx);
